@@ -17,6 +17,7 @@ import Mathlib.Tactic.FinCases
 import M3d.Lemmas.RectMeshOrient
 import M3d.Lemmas.RectMeshClosed
 import M3d.Lemmas.MeshRect
+import M3d.Lemmas.C01Round6
 /-!
 # C01 — meshing always outputs a closed, consistently oriented manifold
 
@@ -975,5 +976,76 @@ example : SoupFast.closedManifoldFast 4 [(0, 2, 1), (0, 1, 3), (1, 2, 3), (2, 0,
     have h2 := (Surface.closedManifold_iff _).2 ((soup_closed_manifold_decided 4 _ (by decide)).1 h)
     revert h2
     decide
+
+/-! ## Round 6: small shapes far from the origin through the Conj members; extruded profiles with very short edges
+
+Kinds `msj` / `mcj`, `soup2/msj_far_tiny`, `soup3/mcj_far_tiny` (harness/cmd/c01/tiny.go: a dyadic shape of size
+`2⁻⁹…2⁻¹²` at a point `m·2¹⁸`, exact transform lists) and `soup3/profile_fine` (chamfers of `10⁻¹⁰…9·10⁻⁹`, finely
+outlined small polar shapes). -/
+section Round6
+open M3d.C01Search
+
+/-- **The sign test of `MarchingSquaresConj` / `MarchingCubesConj` does not depend on where the mesh is.**  The signed
+area / volume measured from a point that moves with the mesh (`msSignedArea` / `mcSignedVolume` take a vertex of the
+mesh) is the same number for the mesh translated by any `w` — for EVERY soup, closed or not, term by term: no product
+in it grows with the distance to the origin.  (Measured from a FIXED point the sum is the same only for closed soups,
+`vol6At_closed`, and in floating point its terms are of size `D²` for an area of `r²` — seeded C01-13.)  Together with
+`conj_translation_is_irrelevant` / `conj2_flip_iff_reversing` (every affine map back, every reference point): a small
+solid far from the origin must come back outward like the same solid at the origin. -/
+theorem conj_sign_test_is_translation_invariant {K : Type} [Field K] :
+    (∀ (w o : K × K) (ss : List ((K × K) × (K × K))),
+      shoe2At (shiftP2 w o) (ss.map (map2 (shiftP2 w))) = shoe2At o ss) ∧
+    (∀ (w o : K × K × K) (ts : List ((K × K × K) × (K × K × K) × (K × K × K))),
+      vol6At (shiftP3 w o) (ts.map (map3 (shiftP3 w))) = vol6At o ts) :=
+  ⟨shoe2At_shift, vol6At_shift⟩
+
+/-- Non-vacuity: the clockwise unit square at `(2²⁰, 3·2¹⁸)`, measured from its first vertex: `-2` (twice the area,
+negative = outward), as at the origin. -/
+example : shoe2At ((1048576 : ℚ), (786432 : ℚ))
+      ([(((0:ℚ),(0:ℚ)),((0:ℚ),(1:ℚ))), ((0,1),(1,1)), ((1,1),(1,0)), ((1,0),(0,0))].map
+        (map2 (shiftP2 ((1048576 : ℚ), (786432 : ℚ))))) = -2 := by
+  norm_num [shoe2At, sub2, det2, map2, shiftP2]
+
+open M3d.ProfileMesh in
+/-- **Every unshared edge of the triangulated profile needs its wall, however short it is** (`model3d.ProfileMesh`,
+model `M3d.ProfileMesh`: caps `caps T` + `AddQuad` walls).  For every triangulation `T` over any vertex type and every
+list `W` of edges that were given a wall — whatever rule selected them —: if `a → b` is a side of a triangle of `T`,
+`b → a` is not (a boundary edge of the profile), and the mesh `caps T ++ walls W` has as many sides `a → b` as `b → a`
+at the bottom level (necessary for "every edge is shared by exactly two triangles that traverse it in opposite
+directions"), then `(b, a)` — the `seg` of the loop for that side — is in `W`.  A rule that skips edges by their
+length (seeded C01-15: `seg[0].Dist(seg[1]) < 1e-8`) leaves the mesh open on every valid profile with such an edge. -/
+theorem profile_boundary_edge_needs_its_wall {V : Type} [DecidableEq V]
+    (T : List (V × V × V)) (W : List (V × V)) (a b : V)
+    (hside : 0 < pecnt T (a, b)) (hboundary : pecnt T (b, a) = 0)
+    (hbal : pecnt (caps T ++ W.flatMap wall) ((a, false), (b, false)) =
+      pecnt (caps T ++ W.flatMap wall) ((b, false), (a, false))) :
+    (b, a) ∈ W :=
+  wall_needed T W a b hside hboundary hbal
+
+open M3d.ProfileMesh in
+/-- Bottom-level sides of the model mesh: the caps contribute the sides of the triangulation, a wall contributes its own
+edge only; so balance at the bottom level of ANY caps-plus-walls mesh is the equation
+`#(a→b in T) + #walls(a,b) = #(b→a in T) + #walls(b,a)`. -/
+theorem profile_wall_count_forced {V : Type} [DecidableEq V]
+    (T : List (V × V × V)) (W : List (V × V)) (a b : V)
+    (hbal : pecnt (caps T ++ W.flatMap wall) ((a, false), (b, false)) =
+      pecnt (caps T ++ W.flatMap wall) ((b, false), (a, false))) :
+    pecnt T (a, b) + W.count (a, b) = pecnt T (b, a) + W.count (b, a) :=
+  wall_count_forced T W a b hbal
+
+open M3d.ProfileMesh in
+/-- Non-vacuity / the model on the smallest profile: one triangle `0 1 2` — the code's rule gives a wall to each of its
+three edges, the mesh (2 caps + 6 wall triangles) has every directed side exactly once with its reverse once; with the
+wall of edge `(1, 0)` left out (what a length test does to a short edge) the side `0 → 1` at the bottom has no partner. -/
+example : wallEdges [((0 : Nat), (1 : Nat), (2 : Nat))] = [(1, 0), (2, 1), (0, 2)] ∧
+    (profileMesh [((0 : Nat), (1 : Nat), (2 : Nat))]).length = 8 ∧
+    (∀ d ∈ (profileMesh [((0 : Nat), (1 : Nat), (2 : Nat))]).flatMap psides,
+      pecnt (profileMesh [((0 : Nat), (1 : Nat), (2 : Nat))]) d = 1 ∧
+      pecnt (profileMesh [((0 : Nat), (1 : Nat), (2 : Nat))]) (d.2, d.1) = 1) ∧
+    pecnt (caps [((0 : Nat), (1 : Nat), (2 : Nat))] ++ [((2 : Nat), (1 : Nat)), (0, 2)].flatMap wall)
+      ((1, false), (0, false)) = 0 := by
+  decide
+
+end Round6
 
 end M3d.C01
